@@ -4,9 +4,9 @@ families: (family name, quick count, thorough count, quick size, thorough size)
 """
 PROPS = {
     'C01': dict(
-        vfile='Props/C01.v', ties=['Tie/TieEnv.v'],
-        families=[('env', 1200, 30000, 'small', 'large')],
-        rule='F_env scenarios: scripted actions + external calls on the real Environment, generated from VERIF_SEED; '
+        vfile='Props/C01.v', ties=['Tie/TieEnv.v', 'Tie/TieFloor.v'],
+        families=[('env', 1200, 30000, 'small', 'large'), ('floor', 120, 3000, 'small', 'large')],
+        rule='F_env scenarios: scripted actions + external calls on the real Environment, generated from VERIF_SEED; plus F_floor scenarios (whole systems driven through System.simulate, incl. runs of length zero and split runs); '
              'non-trivial = events with different priorities due at the same instant were pending, a run() completed and >= 3 actions ran; distinct by scenario text',
         explanation='Theorems over the generic event-system model for every action behaviour, weight source and interleaving '
                     '(induction on reachability); tie = regenerated fact tables + lock-step state comparison after every call.',
@@ -145,11 +145,12 @@ PROPS = {
         explanation='Records only appended; each record carries the state of its moment; level record = level; resource record = pool. Device/data-log link invariant for every exception-free reachable state incl. inside runs: source produced counter = number of its supplied-part records, last level record of a buffer = its level (resource-manager and maintainer records proved to carry other labels). Exactly-one-record-per-occurrence for the other kinds, the sink counter (parts vs hand-overs) and last-resource-record = pool over runs are decided by the record monitor and the lock-step on the full data log. PARTIAL for those.',
         assumptions=['well-posed layouts', 'the event trace (trace=True) is not part of the Coq model: it is checked on the implementation by the monitor (events taken off the queue while tracing vs. trace entries and exported file)']),
     'C20': dict(
-        vfile='Props/C20.v', ties=['Tie/TieEnv.v', 'Tie/TieSys.v'],
-        families=[('sys', 800, 20000, 'small', 'large')],
+        vfile='Props/C20.v', ties=['Tie/TieEnv.v', 'Tie/TieSys.v', 'Tie/TieFloor.v'],
+        families=[('sys', 800, 20000, 'small', 'large'), ('late', 120, 3000, 'small', 'large')],
         rule='F_sys scenarios: system creations, asset creations of every registered kind (sources, handlers, processors, buffers, gates, batchers, sinks, maintainers, schedulers, sensors; transitory parts) '
              'before the first run, between runs and from inside an event, simulate calls on active and superseded systems, explicit add_asset of assets of other systems, look-ups with every filter combination; '
              'plus a twin experiment per scenario (line / buffer / maintainer / scheduler / sensor model created late vs. before the start), generated from VERIF_SEED (corpus/sys first); '
+             'and F_late: F_floor scenarios in which a sink / handler / processor / buffer / flow controller is constructed between two events with blocked upstream devices named in its constructor (full lock-step with the floor model); '
              'non-trivial = an asset was created while its system was already running and a simulate succeeded; distinct by scenario text',
         explanation='Registry invariant and operation theorems for every operation sequence; late creation = early creation operation for operation whenever registration is the last effect of creation '
                     '(kernel-checked on the regenerated class IR of every asset class); the original code violated this (coq/Findings/C20_refuted.v), repaired by a fix: commit; '
